@@ -35,7 +35,6 @@ from typing import Any
 from core.cfg import always_exits
 from core.loader import ClassInfo, FuncInfo, Repo, norm, own_nodes
 
-from .common import conds as path_conds
 
 FS = frozenset
 E: frozenset = frozenset()
@@ -87,6 +86,19 @@ class Lib:
 
 
 @dataclass(frozen=True)
+class Getter:
+    kind: str  # item | attr
+    args: tuple
+
+
+@dataclass(frozen=True)
+class Partial:
+    fn: Any  # abstract value of the wrapped callable
+    args: tuple
+    kwargs: tuple
+
+
+@dataclass(frozen=True)
 class Opaque:
     tag: str = ""
 
@@ -132,6 +144,8 @@ class Frame:
         self.ret: set = set()
         self.loops: list[dict] = []
         self.yields: Ref | None = None
+        self.ctrl: list = []  # (test, polarity, kind) of the undecided conditions the current statement is control dependent on
+        self.pending_ctrl = None
         self.exits = 0  # return / break / continue statements interpreted so far
         self.partial_exit = 0  # conditional exits met so far (a return / continue / break under an unknown condition)
 
@@ -470,10 +484,7 @@ class Interp:
         if name in mod.classes:
             return V(Cls(mod.classes[name].fq))
         if name in mod.constants and name not in mod.imports:
-            c = mod.constants[name]
-            if isinstance(c, ast.Constant):
-                return V(Const(c.value))
-            return V(Opaque(f"{mod.name}.{name}"))
+            return self.module_constant(mod, name)
         if name in mod.imports:
             fq = self.repo.resolve_name(mod, ast.Name(id=name, ctx=ast.Load()))
             return self.global_by_fq(fq or mod.imports[name])
@@ -490,15 +501,42 @@ class Interp:
             if attr in om.functions:
                 return V(Fn(om.functions[attr]))
             if attr in om.constants:
-                c = om.constants[attr]
-                if isinstance(c, ast.Constant):
-                    return V(Const(c.value))
-                return V(Opaque(fq))
+                return self.module_constant(om, attr)
         return V(Lib(fq))
+
+    def module_constant(self, mod, name: str) -> frozenset:
+        """Value of a module level constant: literals (also nested displays and references to other constants) are evaluated."""
+        c = mod.constants[name]
+        if isinstance(c, ast.Constant):
+            return V(Const(c.value))
+
+        def literal(e: ast.AST, depth: int = 0) -> bool:
+            if depth > 6:
+                return False
+            if isinstance(e, ast.Constant):
+                return True
+            if isinstance(e, (ast.Tuple, ast.List, ast.Set)):
+                return all(literal(x, depth + 1) for x in e.elts)
+            if isinstance(e, ast.Dict):
+                return all(k is not None and literal(k, depth + 1) and literal(v, depth + 1) for k, v in zip(e.keys, e.values))
+            if isinstance(e, ast.Name):
+                return e.id in mod.constants and e.id != name and literal(mod.constants[e.id], depth + 1)
+            if isinstance(e, ast.Call) and isinstance(e.func, ast.Name) and e.func.id in ("frozenset", "set", "tuple", "list", "dict", "defaultdict", "OrderedDict") and not e.keywords:
+                return all(literal(x, depth + 1) or (isinstance(x, ast.Name) and x.id in ("str", "list", "set", "dict", "int")) for x in e.args)
+            return False
+
+        if not literal(c):
+            return V(Opaque(f"{mod.name}.{name}"))
+        fi = next(iter(mod.all_funcs), None) or next(iter(self.repo.funcs.values()))
+        fr = Frame(fi, ("const", mod.name, name), {})
+        if isinstance(c, ast.Call) and c.func.id in ("defaultdict",):
+            return V(self.dict_(("const", mod.name, name), mod.relpath))
+        return self.ev(c, {}, fr)
 
     # ------------------------------------------------------------------ statements
     def exec_block(self, stmts: list[ast.stmt], env: dict | None, fr: Frame) -> dict | None:
         raised = 0
+        pushed = 0
         try:
             for s in stmts:
                 if env is None:
@@ -509,9 +547,15 @@ class Interp:
                     # some path through `s` left the function / loop: what follows is not executed on every path
                     self.uncertain += 1
                     raised += 1
+                if fr.pending_ctrl is not None:
+                    fr.ctrl.append(fr.pending_ctrl)
+                    fr.pending_ctrl = None
+                    pushed += 1
             return env
         finally:
             self.uncertain -= raised
+            if pushed:
+                del fr.ctrl[len(fr.ctrl) - pushed:]
 
     @staticmethod
     def join_env(a: dict | None, b: dict | None) -> dict | None:
@@ -565,20 +609,27 @@ class Interp:
             wa: set = set()
             wc: set = set()
             try:
+                kind = self.cond_kind.get((id(s.test), fr.inv), "neutral")
                 self.collectors.append((self.uncertain, wa))
+                fr.ctrl.append((s.test, True, kind))
                 try:
                     a = self.exec_block(s.body, dict(env), fr)
                 finally:
+                    fr.ctrl.pop()
                     self.collectors.pop()
                 self.collectors.append((self.uncertain, wc))
+                fr.ctrl.append((s.test, False, kind))
                 try:
                     c = self.exec_block(s.orelse, dict(env), fr)
                 finally:
+                    fr.ctrl.pop()
                     self.collectors.pop()
             finally:
                 self.uncertain -= 1
             if (a is None) != (c is None) and fr.exits != exits:
                 fr.partial_exit += 1
+                # what follows in this block runs only when the branch that left was not taken
+                fr.pending_ctrl = (s.test, c is None, kind)
             elif fr.exits == exits:
                 # no return / break / continue inside: a branch that ended did so by raising
                 both = (wa & wc) if (a is not None and c is not None) else (wc if a is None else wa)
@@ -902,31 +953,62 @@ class Interp:
         return "neutral"
 
     def data_conds(self, node: ast.AST, env: dict, fr: Frame) -> list:
-        out = []
+        """The data-dependent conditions the statement being interpreted is control dependent on (within its function)."""
+        return [(self.site(fr, e), f"only if `{'' if pol else 'not '}{norm(e, 70)}`", e) for e, pol, k in fr.ctrl if k == "data"]
+
+    def is_dedupe_test(self, e: ast.expr, refs, added: frozenset, env: dict, fr: Frame) -> bool:
+        """`x in C` / `x not in C` where C is the collection being filled or holds values of the same provenance as x:
+        a duplicate is skipped, nothing is lost."""
+        while isinstance(e, ast.UnaryOp) and isinstance(e.op, ast.Not):
+            e = e.operand
+        if not (isinstance(e, ast.Compare) and len(e.ops) == 1 and isinstance(e.ops[0], (ast.In, ast.NotIn))):
+            return False
         try:
-            cs = path_conds(fr.fi, node)
-        except Exception:  # noqa: BLE001 - synthetic nodes without position in the function
-            cs = []
-        for e, pol in cs:
-            k = self.cond_kind.get((id(e), fr.inv))
-            if k is None:
-                try:
-                    k = self.classify_cond(e, None, env, fr)
-                except KeyError:
-                    k = "neutral"
-                self.cond_kind[(id(e), fr.inv)] = k
-            if k == "data":
-                out.append((self.site(fr, e), f"only if `{'' if pol else 'not '}{norm(e, 70)}`"))
-        return out
+            cv = self.ev(e.comparators[0], env, fr)
+            lv = self.ev(e.left, env, fr)
+        except KeyError:
+            return False
+        if any(isinstance(sh, Ref) and sh in set(refs) for sh in cv):
+            return True
+        prov = lambda scs: {(sc.roles, frozenset(x for x in sc.srcs if not str(x).startswith("fld:"))) for sc in scs}  # noqa: E731
+        members = [sh for sh in cv if isinstance(sh, Ref) and sh.kind in ("coll", "dict")]
+        if not members or len(members) != len(cv):
+            return False
+        a, b, c = prov(self.scalars(lv)), prov(self.scalars(self.elems(cv))), prov(self.scalars(added))
+        return bool(a) and (not b or a <= b) and c <= a
+
+    def selection_eids(self, e: ast.expr, added: frozenset, env: dict, fr: Frame) -> frozenset:
+        """`if key_of(x) == current_key:` - identities of the enclosing iterations the equality test compares the added element with."""
+        if not (isinstance(e, ast.Compare) and len(e.ops) == 1 and isinstance(e.ops[0], (ast.Eq, ast.Is))):
+            return E
+        try:
+            tv = self.ev(e, env, fr)
+        except KeyError:
+            return E
+        own = frozenset(x for sc in self.scalars(added) for x in self.live(sc.eids))
+        both = frozenset(x for sc in self.scalars(tv) for x in self.live(sc.eids))
+        return both - own if (both & own) else E
+
+    def select(self, v: frozenset, node: ast.AST, env: dict, fr: Frame) -> frozenset:
+        """Elements added under `if key_of(x) == current_key` are grouped under the element that supplied the key."""
+        outer: set = set()
+        for r in self.data_conds(node, env, fr):
+            pol = not r[1].startswith("only if `not ")
+            if pol:
+                outer |= self.selection_eids(r[2], v, env, fr)
+        if not outer:
+            return v
+        fo = frozenset(outer)
+        return self.map_scalars(v, lambda sc: replace(sc, assoc=sc.assoc | fo), (id(node), fr.inv, "sel"))
 
     def note_mutation(self, refs, added: frozenset, node: ast.AST, env: dict, fr: Frame) -> None:
-        reasons = self.data_conds(node, env, fr)
+        reasons = [r for r in self.data_conds(node, env, fr) if not self.is_dedupe_test(r[2], refs, added, env, fr) and not (not r[1].startswith("only if `not ") and self.selection_eids(r[2], added, env, fr))]
         for g in self.guards:
             reasons = reasons + g
         if not reasons:
             return
         grouped = any(self.live(sc.assoc) for sc in self.scalars(added))
-        marks = [("part", w, why, grouped) for w, why in reasons]
+        marks = [("part", r[0], r[1], grouped) for r in reasons]
         for r in refs:
             if isinstance(r, Ref) and r.kind == "coll":
                 self.add_part(r, marks)
@@ -985,7 +1067,7 @@ class Interp:
         if isinstance(e, ast.Subscript):
             return self.subscript(e, env, fr)
         if isinstance(e, ast.JoinedStr):
-            parts = [self.ev(x.value, env, fr) for x in e.values if isinstance(x, ast.FormattedValue)]
+            parts = [self.text_of(self.ev(x.value, env, fr), x, fr) for x in e.values if isinstance(x, ast.FormattedValue)]
             if not parts:
                 return V(Const("".join(x.value for x in e.values if isinstance(x, ast.Constant))))
             return self.derive(parts, fr, e)
@@ -1055,6 +1137,19 @@ class Interp:
             return V(Sc())
         return self.top(f"unsupported expression {type(e).__name__}")
 
+    def text_of(self, v: frozenset, node: ast.AST, fr: Frame) -> frozenset:
+        """str(v): instances of repo classes that define __str__ / __format__ / __repr__ are rendered by that method."""
+        out: set = set()
+        for sh in v:
+            if isinstance(sh, Ref) and sh.kind == "obj" and self.cell(sh).ci is not None:
+                ci = self.cell(sh).ci
+                m = self.repo.lookup_method(ci, "__str__") or self.repo.lookup_method(ci, "__format__") or self.repo.lookup_method(ci, "__repr__")
+                if m is not None:
+                    out |= self.call_fn(m, V(sh), [V(Const(""))] if m.name == "__format__" else [], {}, node, fr)
+                    continue
+            out.add(sh)
+        return frozenset(out)
+
     def compare(self, e: ast.Compare, env: dict, fr: Frame) -> frozenset:
         left = self.ev(e.left, env, fr)
         rights = [self.ev(c, env, fr) for c in e.comparators]
@@ -1105,8 +1200,8 @@ class Interp:
             res = self.coll((id(e), fr.inv, "comp"), self.site(fr, e))
         outer_marks: list = []
         for gd in self.guards:
-            outer_marks += [("part", w, why, False) for w, why in gd]
-        outer_marks += [("part", w, why, False) for w, why in self.data_conds(e, env, fr)]
+            outer_marks += [("part", r[0], r[1], False) for r in gd]
+        outer_marks += [("part", r[0], r[1], False) for r in self.data_conds(e, env, fr)]
 
         def gen(gi: int, inner: dict, marks: list) -> None:
             if gi == len(e.generators):
@@ -1141,6 +1236,16 @@ class Interp:
                             dead = True
                             break
                         if k == "data":
+                            own = {self.eids.get((id(e), i, fr.inv)) for i in range(gi + 1)}
+                            outer = frozenset(x for sc in self.scalars(tv) for x in self.live(sc.eids) if x not in own)
+                            if outer and isinstance(c, ast.Compare) and len(c.ops) == 1 and isinstance(c.ops[0], (ast.Eq, ast.Is)):
+                                # selection relative to the current element of an enclosing iteration (`for s in subjects: [o for s2, o in pairs if s2 == s]`):
+                                # the selected elements are grouped under that element
+                                cur = self.map_scalars(cur, lambda sc, outer=outer: replace(sc, assoc=sc.assoc | outer), (id(e), gi, fr.inv, "sel"))
+                                self.assign(g.target, cur, env2, fr)
+                                continue
+                            if self.is_dedupe_test(c, [res], cur, env2, fr):
+                                continue
                             grouped = any(self.live(sc.assoc) for sc in self.scalars(cur))
                             ms.append(("part", self.site(fr, c), f"only if `{norm(c, 70)}`", grouped))
                     if not dead:
@@ -1166,7 +1271,12 @@ class Interp:
                         self.add_part(r, [("part", self.site(fr, e), f"only the slice `{norm(e, 60)}` is used", grouped)])
                     out.add(r)
                 elif isinstance(sh, Tup):
-                    out.add(self.coll((id(e), fr.inv, "slice", "t"), self.site(fr, e), frozenset().union(*sh.items) if sh.items else E))
+                    sl = e.slice
+                    consts = [x.value if isinstance(x, ast.Constant) else (-x.operand.value if isinstance(x, ast.UnaryOp) and isinstance(x.op, ast.USub) and isinstance(x.operand, ast.Constant) else "?") if x is not None else None for x in (sl.lower, sl.upper, sl.step)]
+                    if "?" not in consts:
+                        out.add(Tup(tuple(sh.items[slice(*consts)]), sh.site))
+                    else:
+                        out.add(self.coll((id(e), fr.inv, "slice", "t"), self.site(fr, e), frozenset().union(*sh.items) if sh.items else E))
                 elif isinstance(sh, (Sc, Const, Opaque)):
                     out |= self.derive([V(sh)], fr, e, check=False)
                 elif isinstance(sh, Top):
@@ -1232,8 +1342,10 @@ class Interp:
                 elif c.ci is not None and any(name in k.class_attrs for k in self.repo.mro(c.ci)):
                     ce = next(k.class_attrs[name] for k in self.repo.mro(c.ci) if name in k.class_attrs)
                     out |= V(Const(ce.value)) if isinstance(ce, ast.Constant) else V(Opaque(name))
-                else:
+                elif name.startswith("__") and name.endswith("__"):
                     out.add(Opaque(f".{name}"))
+                else:
+                    out |= self.top(f"attribute `{name}` of {c.ci.name if c.ci else 'an object'} has no known value at {self.site(fr, node)}")
             elif isinstance(sh, Sc):
                 out.add(replace(sh, none=False, agg=False))
             elif isinstance(sh, Opaque):
@@ -1307,6 +1419,31 @@ class Interp:
             return self.lib(sh.name, args, kwargs, call, env, fr)
         if isinstance(sh, Top):
             return V(sh)
+        if isinstance(sh, Partial):
+            out: set = set()
+            for f in sh.fn:
+                out |= self.apply(f, [*sh.args, *args], {**dict(sh.kwargs), **kwargs}, call, env, fr)
+            return frozenset(out)
+        if isinstance(sh, Getter) and args:
+            parts = []
+            for a in sh.args:
+                if sh.kind == "attr":
+                    parts.append(self.attr(args[0], a, call, env, fr))
+                else:
+                    got: set = set()
+                    for x in args[0]:
+                        if isinstance(x, Tup) and isinstance(a, int) and -len(x.items) <= a < len(x.items):
+                            got |= x.items[a]
+                        elif isinstance(x, Ref) and x.kind == "dict":
+                            got |= self.dict_lookup(x, V(Const(a)), call, fr)
+                        elif isinstance(x, Ref) and x.kind == "coll":
+                            got |= self.elems(V(x))
+                        elif isinstance(x, Sc):
+                            got.add(replace(x, none=False, agg=False))
+                        else:
+                            got |= self.top(f"itemgetter on {type(x).__name__}")
+                    parts.append(frozenset(got))
+            return parts[0] if len(parts) == 1 else V(Tup(tuple(parts), self.site(fr, call)))
         if isinstance(sh, (Opaque, Sc)):
             if any(isinstance(x, Ref) and x.kind in ("coll", "dict") for a in [*args, *kwargs.values()] for x in a):
                 return self.top(f"call of an unknown callable with a collection argument: `{norm(call, 60)}`")
@@ -1406,7 +1543,10 @@ class Interp:
         if init is not None:
             self.call_fn(init, V(ref), args, kwargs, node, fr, caller_env=env)
             return V(ref)
-        if ci.is_dataclass or any(c.is_dataclass for c in self.repo.mro(ci)):
+        record = ci.is_dataclass or any(c.is_dataclass for c in self.repo.mro(ci)) or any(b.rsplit(".", 1)[-1] in ("NamedTuple", "TypedDict") for b in self.repo.external_bases(ci))
+        if not record and (args or kwargs):
+            return self.top(f"constructor of {ci.name} (no __init__, not a dataclass) is not modelled")
+        if record:
             fields: list[str] = []
             for c in reversed(self.repo.mro(ci)):
                 for n in c.ann_attrs:
@@ -1463,10 +1603,10 @@ class Interp:
             if isinstance(sh, Sc) and sh.srcs:
                 self.scalar_calls.append((name, sh.srcs))
             if name == "join" and args:
-                el = self.elems(args[0])
+                el = self.text_of(self.elems(args[0]), call, fr)
                 return self.derive([V(sh) if isinstance(sh, Sc) else E, el], fr, call, check=False, agg=True)
             if name in ("format", "format_map"):
-                return self.derive([V(sh) if isinstance(sh, Sc) else E, *args, *kwargs.values()], fr, call)
+                return self.derive([V(sh) if isinstance(sh, Sc) else E, *[self.text_of(a, call, fr) for a in [*args, *kwargs.values()]]], fr, call)
             if name in ("split", "rsplit", "splitlines", "partition", "rpartition"):
                 return V(self.coll((id(call), fr.inv, "split"), self.site(fr, call), self.derive([V(sh) if isinstance(sh, Sc) else E], fr, call, check=False)))
             return self.derive([V(sh) if isinstance(sh, Sc) else E, *[a for a in args if not any(isinstance(x, Ref) for x in a)]], fr, call, check=False)
@@ -1484,7 +1624,7 @@ class Interp:
 
     def coll_method(self, sh: Ref, name: str, args, kwargs, call: ast.Call, env: dict, fr: Frame, key) -> frozenset:
         if name in MUTATORS_ADD1 or name == "insert":
-            v = args[-1] if args else E
+            v = self.select(args[-1] if args else E, call, env, fr)
             if key is not None:
                 v = self.bake(key, v, fr, call)
             self.add(sh, v)
@@ -1568,9 +1708,44 @@ class Interp:
         key = (id(call), fr.inv, "lib")
         site = self.site(fr, call)
         if name in COPYING or (short in COPYING and name.startswith(("builtins", "collections"))):
+            out: set = set()
+            rest: set = set()
+            for sh in (args[0] if args else E):
+                if isinstance(sh, Tup) and name in ("tuple", "reversed", "list", "iter"):
+                    out.add(Tup(tuple(reversed(sh.items)), sh.site) if name == "reversed" else sh)
+                else:
+                    rest.add(sh)
+            if rest or not out:
+                r = self.coll(key, site)
+                self.add(r, self.elems(frozenset(rest)))
+                out.add(r)
+            return frozenset(out)
+        if name in ("operator.itemgetter", "itemgetter", "operator.attrgetter", "attrgetter"):
+            consts = [next(iter(a)).value for a in args if len(a) == 1 and isinstance(next(iter(a)), Const)]
+            if len(consts) != len(args) or not consts:
+                return self.top(f"`{norm(call, 60)}` with computed arguments")
+            return V(Getter("item" if "itemgetter" in name else "attr", tuple(consts)))
+        if name in ("functools.partial", "partial") and args:
+            return V(Partial(args[0], tuple(args[1:]), tuple(sorted(kwargs.items()))))
+        if name in ("itertools.groupby", "groupby") and args:
             r = self.coll(key, site)
-            for a in args[:1]:
-                self.add(r, self.elems(a))
+            keyfn = args[1] if len(args) > 1 else kwargs.get("key")
+            e = self.eid((id(call), "groupby", fr.inv), site)
+            first = self.elems(args[0])
+            self.active.append(e)
+            try:
+                for alt in [V(sh) for sh in first]:
+                    cur = self.retag(alt, e, (id(call), fr.inv, "gb"))
+                    kv: set = set()
+                    if keyfn:
+                        for f in keyfn:
+                            kv |= self.apply(f, [cur], {}, call, env, fr)
+                    else:
+                        kv |= cur
+                    grp = self.coll((id(call), fr.inv, "gbg", repr(alt)), site, cur)
+                    self.add(r, V(Tup((frozenset(kv), V(grp)), site)))
+            finally:
+                self.active.pop()
             return V(r)
         if name in ("dict", "collections.defaultdict", "collections.OrderedDict", "defaultdict", "OrderedDict"):
             r = self.dict_(key, site)
@@ -1593,6 +1768,8 @@ class Interp:
                 return self.elems(args[0]) if args else E
             if name in ("len", "sum", "any", "all"):
                 return self.derive([self.elems(a) for a in args], fr, call, check=False, agg=name == "len")
+            if name in ("str", "repr", "format"):
+                args = [self.text_of(a, call, fr) for a in args]
             return self.derive([a for a in args if not any(isinstance(x, Ref) and x.kind != "obj" for x in a)], fr, call, check=False)
         if name == "map" and len(args) >= 2:
             r = self.coll(key, site)
